@@ -1,6 +1,7 @@
 """C06 — equivalent spellings give identical results: one blank set everywhere, operator synonyms,
 redundant parentheses, quoting styles, empty input ≡ -true."""
 import json
+import re
 import os
 
 from .. import facts as F
@@ -254,6 +255,11 @@ def run(c, facts, tier):
             continue  # a parser builder (value or type parameters), expanded at its call sites
         fb = b.fn_ir(key)
         if not fb.get("returns_parser"):
+            continue
+        # a word parser yields a slice of the input: `impl Parser<&str, &str, _>` (a helper returning a parser of another
+        # value — `fn invalid() -> impl Parser<&str, FileType, _>` — is no word parser)
+        outs = F.split_generics(re.sub(r"^.*?Parser<", "", F.norm_ty(fn.node["output"]))[:-1]) if "Parser<" in F.norm_ty(fn.node["output"]) else []
+        if len(outs) >= 2 and not re.fullmatch(r"&('\w+)?str", outs[1].strip()):
             continue
         forms = []
         raw_ok = True
